@@ -104,17 +104,18 @@ type propCfg struct {
 	// RareEvery-th run.
 	Rare      []string
 	RareEvery int
+	Wall      int // wall-clock cap per run in seconds (0 = default)
 }
 
 var props = map[string]propCfg{
-	"C01": {Focus: "C01", Arms: []string{"garbage"}, Probes: []string{"c01_liveness_probe"}},
+	"C01": {Focus: "C01", Arms: []string{"garbage"}, Probes: []string{"c01_liveness_probe"}, Wall: 20},
 	"C02": {Focus: "C02", Arms: []string{"clean"}, Probes: []string{"c02_fresh_compared", "content_checked"}},
 	"C03": {Focus: "C03", Arms: []string{"clean", "faults"}, Probes: []string{"c03_checked", "c03_notimp", "c03_refused", "c03_servfail"}},
-	"C04": {Focus: "C04", Arms: []string{"clean"}, Probes: []string{"content_checked"}},
+	"C04": {Focus: "C04", Arms: []string{"clean", "clean", "prefetch"}, Probes: []string{"content_checked", "cache_hit_last_quarter"}},
 	"C05": {Focus: "C05", Arms: []string{"clean"}, Rare: []string{"exhaust"}, RareEvery: 2500, Probes: []string{"c05_reply_checked", "c05_wireid_checked", "c05_exhaust_completed", "c05_exhaust_rollover_seen"}},
 	"C06": {Focus: "C06", Arms: []string{"clean"}, Probes: []string{"c06_query_checked", "c06_reply_checked"}},
 	"C14": {Focus: "C14", Arms: []string{"stale", "faults"}, Probes: []string{"c14_deadline_checked", "c14_liveness_checked", "c14_waiter_on_dead_conn"}},
-	"C20": {Focus: "C20", Arms: []string{"router", "xport"}, Race: true, Probes: []string{"content_checked", "c06_reply_checked"}},
+	"C20": {Focus: "C20", Arms: []string{"router", "xport", "prefetch"}, Race: true, Probes: []string{"content_checked", "c06_reply_checked"}},
 	"C15": {Focus: "C15", Arms: []string{"unit", "e2e"}, Probes: []string{"c15_decisions_compared", "c15_e2e_refused", "c15_e2e_admitted"}},
 	"C16": {Focus: "C16", Arms: []string{"clean"}, Probes: []string{"c16_tc_seen", "c16_tcp_outcome_returned", "c16_no_tc"}},
 	"C07": {Focus: "C07", Arms: []string{"ample", "ample", "tiny"}, Probes: []string{"cache_hit", "c07_group_checked", "c07_compared_with_first_relay", "c07_hit_expected"}},
@@ -123,7 +124,7 @@ var props = map[string]propCfg{
 	"C18": {Focus: "C18", Arms: []string{"xclose", "rclose", "startfault", "xclose"}, Probes: []string{"c18_upstream_close_checked", "c18_router_close_checked", "c18_call_after_close", "c18_call_inflight_at_close"}},
 	"C19": {Focus: "C19", Arms: []string{"clean"}, Probes: []string{"cache_hit", "cache_hit_last_quarter", "c07_hit_expected"}},
 	"C09": {Focus: "C09", Arms: []string{"clean"}, Probes: []string{"c09_truncated", "c09_fits"}},
-	"C10": {Focus: "C10", Arms: []string{"clean", "startfault"}, Probes: []string{"c10_forward_checked", "c10_reject", "c10_refused"}},
+	"C10": {Focus: "C10", Arms: []string{"clean", "startfault", "clean", "prefetch"}, Probes: []string{"c10_forward_checked", "c10_reject", "c10_refused"}},
 	"C11": {Focus: "C11", Arms: []string{"clean"}, Probes: []string{"c10_forward_checked", "c11_matched", "c11_unmatched"}},
 	"C12": {Focus: "C12", Arms: []string{"clean"}, Probes: []string{"c12_client_opt_checked", "c12_upstream_opt_checked", "c12_ecs_checked"}},
 	"C13": {Focus: "C13", Arms: []string{"clean", "overload"}, Probes: []string{"c13_conn_checked", "c13_pipelined", "c13_overload"}},
@@ -188,6 +189,9 @@ func runChild(env []string, outFile string) *result {
 	r.crashed = true
 	r.timeout = timedOut
 	r.stderr = tail(stderr.String(), 6000)
+	if timedOut {
+		r.stderr = tail(stderr.String(), 400000)
+	}
 	return r
 }
 
@@ -220,6 +224,8 @@ func runPlanFile(path string, keepLog int, id string) *result {
 
 var useRace bool
 
+var minBudget = 120
+
 // runSeedRace runs one seed under the race detector build.
 func runSeedRace(seed uint64, focus, arm, id string) *result {
 	out := filepath.Join(scratch, "res-"+id+".json")
@@ -248,10 +254,34 @@ func genPlan(seed uint64, focus, arm string) (*plan.Plan, error) {
 
 // crashViolation turns a dead child into a violation when the stack shows
 // code of the repository (or a runtime fatal error).
+// hangViolation: the run never quiesced within the wall-clock cap and the
+// SIGQUIT dump shows a goroutine *running* inside repository code.
+func hangViolation(prop string, r *result) *violation {
+	if !r.timeout {
+		return nil
+	}
+	for _, blk := range strings.Split(r.stderr, "\n\n") {
+		first := strings.SplitN(blk, "\n", 2)[0]
+		if !strings.HasPrefix(first, "goroutine ") || !(strings.Contains(first, "[running") || strings.Contains(first, "[runnable")) {
+			continue
+		}
+		for _, l := range strings.Split(blk, "\n") {
+			l = strings.TrimSpace(l)
+			if strings.HasPrefix(l, "/repo/") {
+				if i := strings.IndexByte(l, ' '); i > 0 {
+					l = l[:i]
+				}
+				return &violation{Property: prop, Clause: "hang", Detail: "the run did not quiesce within the wall-clock cap; a goroutine is spinning in repository code at " + l}
+			}
+		}
+	}
+	return nil
+}
+
 func crashViolation(prop string, r *result) *violation {
 	s := r.stderr
 	if r.timeout {
-		return nil
+		return hangViolation(prop, r)
 	}
 	isPanic := strings.Contains(s, "panic:") || strings.Contains(s, "fatal error:")
 	if !isPanic {
@@ -351,6 +381,9 @@ func main() {
 	if !ok {
 		fmt.Fprintf(os.Stderr, "campaign: no check registered for %s\n", *prop)
 		os.Exit(2)
+	}
+	if cfg.Wall > 0 {
+		childWall = time.Duration(cfg.Wall) * time.Second
 	}
 	if *detTest > 0 {
 		os.Exit(determinism(cfg, seed, *detTest, *workers))
@@ -530,7 +563,7 @@ func report(prop string, cfg propCfg, f failure, dir string, findings []finding)
 		}
 		if r.crashed {
 			v := crashViolation(prop, r)
-			return v != nil && f.v.Clause == "process-crash"
+			return v != nil && v.Clause == f.v.Clause
 		}
 		for _, v := range r.Violations {
 			if v.Property == f.v.Property && v.Clause == f.v.Clause {
@@ -540,6 +573,10 @@ func report(prop string, cfg propCfg, f failure, dir string, findings []finding)
 		return false
 	}
 	confirmed = fails(p, "confirm")
+	minBudget = 120
+	if f.v.Clause == "hang" {
+		minBudget = 10 // every failing candidate costs the full wall-clock cap
+	}
 	if confirmed {
 		if q := minimise(p, fails); q != nil {
 			p = q
@@ -556,7 +593,7 @@ func report(prop string, cfg propCfg, f failure, dir string, findings []finding)
 // simplify knobs and network faults, while the same (property, clause) fails.
 func minimise(p *plan.Plan, fails func(*plan.Plan, string) bool) *plan.Plan {
 	cur := clone(p)
-	budget := 120
+	budget := minBudget
 	try := func(c *plan.Plan) bool {
 		if budget <= 0 {
 			return false
